@@ -117,6 +117,10 @@ where
 
 // --------------------------------------------------------------------
 
+// ~ upper bound for pre-allocations driven by a length read from the
+// wire; larger collections simply grow as their elements arrive
+const MAX_PREALLOC_ELEMS: usize = 1024;
+
 pub trait FromByte {
     type R: Default + FromByte;
 
@@ -211,7 +215,7 @@ impl<V: FromByte + Default> FromByte for Vec<V> {
         if length <= 0 {
             return Ok(());
         }
-        self.reserve(length as usize);
+        self.reserve(std::cmp::min(length as usize, MAX_PREALLOC_ELEMS));
         for _ in 0..length {
             let mut e: V = Default::default();
             e.decode(buffer)?;
@@ -233,7 +237,7 @@ impl FromByte for Vec<u8> {
         if length <= 0 {
             return Ok(());
         }
-        self.reserve(length as usize);
+        self.reserve(std::cmp::min(length as usize, MAX_PREALLOC_ELEMS));
         match buffer.take(length as u64).read_to_end(self) {
             Ok(size) => {
                 if size < length as usize {
